@@ -1,5 +1,56 @@
+import Agd.Model.Pools
 import Agd.Driver.Util
-/-! Line-protocol driver for the C07 model (stub: not built yet). -/
+/-! Line-protocol driver for the C07 model (cloner pools as an ownership model).
+
+Ops (numbers separated by blanks):
+* `reset`
+* `new d span k off cap n v1..vn k off cap n v1..vn …` — a foreign message
+* `clone src dst`, `dispose h`, `make d usePool k v1..vn`, `poke h i j v`
+
+Answer: `<recycle flags> <alias> <dump>` where the dump lists, for every live handle `< 8`, the kinds and
+values of its objects as read through the heap. -/
 namespace Agd.Driver.C07
-def main : IO Unit := Agd.Driver.loop (fun (s : Unit) _ => (s, "bad-op")) ()
+open Agd.Pools Agd.Driver
+
+def nHandles : Nat := 8
+
+def parseSpecs : Nat → List String → List Spec
+  | 0, _ => []
+  | fuel + 1, k :: off :: cap :: n :: r =>
+    let cnt := nat! n
+    { kind := nat! k, off := nat! off, cap := nat! cap, vals := (r.take cnt).map nat! } ::
+      parseSpecs fuel (r.drop cnt)
+  | _, _ => []
+
+def showObj (h : Heap) (o : Obj) : String :=
+  toString o.kind ++ ":" ++ ",".intercalate ((content h o).map toString)
+
+def dump (s : St) : String :=
+  ";".intercalate ((List.range nHandles).filterMap (fun h =>
+    match s.live h with
+    | none => none
+    | some m => some (toString h ++ "=" ++ "/".intercalate (m.map (showObj s.heap)))))
+
+def flags (fs : List Bool) : String :=
+  if fs.isEmpty then "-" else String.ofList (fs.map (fun b => if b then 'R' else 'F'))
+
+def answer (s : St) (fs : List Bool) : St × String :=
+  (s, flags fs ++ " " ++ showB (anyAlias s nHandles) ++ " " ++ dump s)
+
+def step (s : St) : List String → St × String
+  | ["reset"] => (St.init, "ok")
+  | "new" :: d :: span :: rest =>
+    answer (newMsg s (nat! d) (nat! span) (parseSpecs rest.length rest)) []
+  | ["clone", a, b] =>
+    let r := clone s (nat! a) (nat! b)
+    answer r.1 r.2
+  | ["dispose", h] => answer (dispose s (nat! h)) []
+  | "make" :: d :: u :: k :: vs =>
+    let r := make s (nat! d) (bool! u) (nat! k) (vs.map nat!)
+    answer r.1 [r.2]
+  | ["poke", h, i, j, v] => answer (poke s (nat! h) (nat! i) (nat! j) (nat! v)) []
+  | _ => (s, "bad-op")
+
+def main : IO Unit := loop step St.init
+
 end Agd.Driver.C07
